@@ -2,6 +2,7 @@ package c03
 
 import (
 	"bufio"
+	"crypto/sha1"
 	"encoding/json"
 	"errors"
 	"flag"
@@ -13,6 +14,7 @@ import (
 	"sort"
 	"strconv"
 	"strings"
+	"sync"
 
 	"github.com/go-logr/logr"
 	crossplane "github.com/nginxinc/nginx-go-crossplane"
@@ -59,10 +61,12 @@ type LineJ struct {
 	Desc   string              `json:"desc,omitempty"`
 	Objs   json.RawMessage     `json:"objs,omitempty"` // only with -objs (replay files)
 	// hints for classifying findings (facts about the INPUT, computed from the objects):
-	SharedRoutes []string `json:"shared_routes,omitempty"` // safe-variable prefixes "group_<ns>__<name>_rule" of ns/name used by both an HTTPRoute and a GRPCRoute
-	Colliding    []string `json:"colliding,omitempty"`     // safe-variable names produced by >= 2 distinct (ns, name, idx)
-	InvalidTLS   []string `json:"invalid_tls,omitempty"`   // bundle files referenced through a BackendTLSPolicy by an INVALID backend of a rule
-	DupSSL404    []string `json:"dup_ssl_404,omitempty"`   // "<listen> <hostname>" of SSL servers emitted twice, one of them the route-less 404 server of a listener
+	SharedRoutes  []string `json:"shared_routes,omitempty"`   // safe-variable prefixes "group_<ns>__<name>_rule" of ns/name used by both an HTTPRoute and a GRPCRoute
+	Colliding     []string `json:"colliding,omitempty"`       // safe-variable names produced by >= 2 distinct (ns, name, idx)
+	InvalidTLS    []string `json:"invalid_tls,omitempty"`     // bundle files referenced through a BackendTLSPolicy by an INVALID backend of a rule
+	CrossKindCSP  []string `json:"cross_kind_csp,omitempty"`  // directives set by two ClientSettingsPolicies that reach one path rule through an HTTPRoute and a GRPCRoute of the same ns/name
+	CrossRouteCSP []string `json:"cross_route_csp,omitempty"` // same, but the two policies target routes with different names (the overlap check should have denied one)
+	DupSSL404     []string `json:"dup_ssl_404,omitempty"`     // "<listen> <hostname>" of SSL servers emitted twice, one of them the route-less 404 server of a listener
 }
 
 func repoDir() string {
@@ -78,6 +82,26 @@ const mimeTypesStub = "types {\n    text/html html htm shtml;\n    application/g
 // StaticFiles returns the files of the container image that the generated configuration relies on,
 // read from the repository under test.
 func StaticFiles(plus bool) ([]FileJ, error) {
+	staticMu.Lock()
+	defer staticMu.Unlock()
+	if c, ok := staticCache[plus]; ok {
+		return c, nil
+	}
+	out, err := readStaticFiles(plus)
+	if err == nil {
+		staticCache[plus] = out
+	}
+	return out, err
+}
+
+var (
+	staticMu    sync.Mutex
+	staticCache = map[bool][]FileJ{}
+	// contents whose crossplane token stream was already handed to the Lean side (identical files are compared once)
+	xpSeen sync.Map
+)
+
+func readStaticFiles(plus bool) ([]FileJ, error) {
 	conf := repoDir() + "/internal/mode/static/nginx/conf/"
 	main := "nginx.conf"
 	if plus {
@@ -223,6 +247,7 @@ func RunCase(id string, c *Case) LineJ {
 	line.Names = observeNames(out.Graph, out.Conf)
 	line.SharedRoutes, line.Colliding, line.InvalidTLS = hints(c.Objs, out.Conf)
 	line.DupSSL404 = dupSSL404(out.Conf)
+	line.CrossKindCSP, line.CrossRouteCSP = crossKindCSP(out.Conf)
 	return line
 }
 
@@ -237,7 +262,9 @@ func fillFromFiles(line *LineJ, files []file.File, plus bool) {
 		line.Files = append(line.Files, FileJ{P: f.Path, T: text})
 		if isConf(f.Path) {
 			all[f.Path] = text
-			line.XP[f.Path] = lexXP(text)
+			if _, dup := xpSeen.LoadOrStore(sha1.Sum([]byte(text)), true); !dup {
+				line.XP[f.Path] = lexXP(text)
+			}
 		}
 	}
 	if st, err := StaticFiles(plus); err == nil {
@@ -370,6 +397,7 @@ func Run(args []string) int {
 	withObjs := fs.Bool("objs", false, "include the objects in every line")
 	only := fs.Int("only", -1, "emit only case #i (with objects)")
 	replay := fs.String("replay", "", "")
+	workers := fs.Int("j", 8, "parallel pipeline runs")
 	if err := fs.Parse(args); err != nil {
 		return 2
 	}
@@ -409,14 +437,15 @@ func Run(args []string) int {
 		_ = enc.Encode(line)
 		return 0
 	}
+	type job struct {
+		id   string
+		c    *Case
+		tags []string
+		desc string
+	}
+	var jobs []job
 	for _, cc := range Corpus() {
-		line := RunCase("corpus-"+cc.Name, cc.Case)
-		line.Tags = []string{"corpus"}
-		line.Desc = cc.Name
-		if *withObjs {
-			line.Objs = p.EncodeObjects(cc.Case.Objs)
-		}
-		_ = enc.Encode(line)
+		jobs = append(jobs, job{id: "corpus-" + cc.Name, c: cc.Case, tags: []string{"corpus"}, desc: cc.Name})
 	}
 	r := rng.New(*seed)
 	for i := 0; i < *n; i++ {
@@ -425,20 +454,43 @@ func Run(args []string) int {
 		if i%4 == 3 {
 			mode = 0
 		}
-		c := Generate(cr, mode)
+		c := Generate(cr, mode) // sequential: the scenario stream depends only on the seed
 		if *only >= 0 && i != *only {
 			continue
 		}
-		line := RunCase(fmt.Sprintf("s%d-%d", *seed, i), c)
+		var tags []string
 		for k := range c.Tags {
-			line.Tags = append(line.Tags, k)
+			tags = append(tags, k)
 		}
-		sort.Strings(line.Tags)
-		if *withObjs || *only >= 0 {
-			line.Objs = p.EncodeObjects(c.Objs)
-		}
-		_ = enc.Encode(line)
-		w.Flush()
+		sort.Strings(tags)
+		jobs = append(jobs, job{id: fmt.Sprintf("s%d-%d", *seed, i), c: c, tags: tags})
+	}
+	// the pipeline runs are independent (one fresh controller each): run them on a few goroutines, emit in order
+	results := make([]LineJ, len(jobs))
+	var wg sync.WaitGroup
+	next := make(chan int)
+	for w := 0; w < *workers; w++ {
+		wg.Add(1)
+		go func() {
+			defer wg.Done()
+			for i := range next {
+				j := jobs[i]
+				line := RunCase(j.id, j.c)
+				line.Tags, line.Desc = j.tags, j.desc
+				if *withObjs || (*only >= 0 && j.desc == "") {
+					line.Objs = p.EncodeObjects(j.c.Objs)
+				}
+				results[i] = line
+			}
+		}()
+	}
+	for i := range jobs {
+		next <- i
+	}
+	close(next)
+	wg.Wait()
+	for i := range results {
+		_ = enc.Encode(results[i])
 	}
 	return 0
 }
@@ -535,4 +587,77 @@ func dupSSL404(conf *dataplane.Configuration) []string {
 	}
 	sort.Strings(out)
 	return out
+}
+
+func cspDirectives(sp ngfAPI.ClientSettingsPolicySpec) []string {
+	var out []string
+	if sp.Body != nil {
+		if sp.Body.MaxSize != nil {
+			out = append(out, "client_max_body_size")
+		}
+		if sp.Body.Timeout != nil {
+			out = append(out, "client_body_timeout")
+		}
+	}
+	if sp.KeepAlive != nil {
+		if sp.KeepAlive.Requests != nil {
+			out = append(out, "keepalive_requests")
+		}
+		if sp.KeepAlive.Time != nil {
+			out = append(out, "keepalive_time")
+		}
+		if sp.KeepAlive.Timeout != nil {
+			out = append(out, "keepalive_timeout")
+		}
+	}
+	return out
+}
+
+// crossKindCSP: a path rule that carries two different ClientSettingsPolicies, one targeting HTTPRoute ns/x and one
+// targeting GRPCRoute ns/x (same namespace and name), both setting the same directive.
+func crossKindCSP(conf *dataplane.Configuration) (sameName, otherRoute []string) {
+	set, set2 := map[string]bool{}, map[string]bool{}
+	for _, srv := range append(append([]dataplane.VirtualServer{}, conf.HTTPServers...), conf.SSLServers...) {
+		for _, pr := range srv.PathRules {
+			var csps []*ngfAPI.ClientSettingsPolicy
+			seen := map[string]bool{}
+			for _, pol := range pr.Policies {
+				if c, ok := pol.(*ngfAPI.ClientSettingsPolicy); ok && !seen[c.Namespace+"/"+c.Name] {
+					seen[c.Namespace+"/"+c.Name] = true
+					csps = append(csps, c)
+				}
+			}
+			for i := range csps {
+				for j := i + 1; j < len(csps); j++ {
+					a, b := csps[i], csps[j]
+					if a.Spec.TargetRef.Kind == "Gateway" || b.Spec.TargetRef.Kind == "Gateway" {
+						continue
+					}
+					dst := set2 // different route names (or namespaces)
+					if a.Namespace == b.Namespace && a.Spec.TargetRef.Name == b.Spec.TargetRef.Name {
+						if a.Spec.TargetRef.Kind == b.Spec.TargetRef.Kind {
+							continue // same target: conflict resolution's business
+						}
+						dst = set
+					}
+					for _, da := range cspDirectives(a.Spec) {
+						for _, db := range cspDirectives(b.Spec) {
+							if da == db {
+								dst[da] = true
+							}
+						}
+					}
+				}
+			}
+		}
+	}
+	for k := range set {
+		sameName = append(sameName, k)
+	}
+	for k := range set2 {
+		otherRoute = append(otherRoute, k)
+	}
+	sort.Strings(sameName)
+	sort.Strings(otherRoute)
+	return sameName, otherRoute
 }
